@@ -340,6 +340,9 @@ impl RefServer {
                 }
             }
         }
+        if let Some(seed) = kv_get(spec, "more").and_then(|x| x.parse::<u64>().ok()) {
+            self.push_more(&mut b, req, seed, &mut what);
+        }
         // integrity override
         let integ = kv_get(spec, "integ").unwrap_or("auto");
         let mut corrupt_mac = false;
@@ -436,6 +439,26 @@ impl RefServer {
     }
 
     fn body(&self, req: &Parsed, code: Option<u16>, what: &mut String) -> Builder {
+        self.body_plain(req, code, what)
+    }
+
+    /// Appends 1-4 further valid attributes of other kinds (before any integrity / fingerprint tail).
+    fn push_more(&self, b: &mut Builder, req: &Parsed, seed: u64, what: &mut String) {
+        let mut r = crate::prng::Rng::new(seed);
+        let n = r.range(1, 4);
+        for _ in 0..n {
+            let k = r.below(N_EXTRA_KINDS);
+            let (t, v) = extra_attr(k, &mut r, &req.txid);
+            // an ERROR-CODE only makes sense in an error response; a second one is left out
+            if t == A_ERROR_CODE {
+                continue;
+            }
+            b.push_attr(t, &v);
+        }
+        what.push_str("+more");
+    }
+
+    fn body_plain(&self, req: &Parsed, code: Option<u16>, what: &mut String) -> Builder {
         match code {
             Some(c) => {
                 let mut b = Builder::new(C_ERROR, req.method, &req.txid);
@@ -535,4 +558,123 @@ pub fn splice_suffix(b: &mut Builder, spec: &str, key: &[u8]) {
             _ => {}
         }
     }
+}
+
+/// Further attribute kinds (TURN, ICE, NAT-discovery, mobility) encoded from their RFCs, so that structure
+/// aware faults also reach those decoders. `k` selects the kind, `r` provides the values.
+pub const N_EXTRA_KINDS: u64 = 30;
+
+pub fn extra_attr(k: u64, r: &mut crate::prng::Rng, txid: &[u8; 12]) -> (u16, Vec<u8>) {
+    let addr = |r: &mut crate::prng::Rng, xor: bool| -> Vec<u8> {
+        let port = r.below(65536) as u16;
+        if r.chance(1, 2) {
+            let ip = r.bytes(4);
+            let mut v = vec![0u8, 1];
+            let p = if xor { port ^ 0x2112 } else { port };
+            v.extend_from_slice(&p.to_be_bytes());
+            for i in 0..4 {
+                v.push(if xor { ip[i] ^ MAGIC[i] } else { ip[i] });
+            }
+            v
+        } else {
+            let ip = r.bytes(16);
+            let mut v = vec![0u8, 2];
+            let p = if xor { port ^ 0x2112 } else { port };
+            v.extend_from_slice(&p.to_be_bytes());
+            let mut key = MAGIC.to_vec();
+            key.extend_from_slice(txid);
+            for i in 0..16 {
+                v.push(if xor { ip[i] ^ key[i] } else { ip[i] });
+            }
+            v
+        }
+    };
+    match k % N_EXTRA_KINDS {
+        0 => (0x0001, addr(r, false)),
+        1 => (0x0003, (*r.pick(&[0u32, 2, 4, 6])).to_be_bytes().to_vec()),
+        2 => {
+            let n = r.range(0, 5);
+            let mut v = vec![];
+            for _ in 0..n {
+                v.extend_from_slice(&(r.below(65536) as u16).to_be_bytes());
+            }
+            (0x000A, v)
+        }
+        3 => {
+            let mut v = (0x4000u16 + r.below(0x3fff) as u16).to_be_bytes().to_vec();
+            v.extend_from_slice(&[0, 0]);
+            (0x000C, v)
+        }
+        4 => (0x000D, (r.below(1 << 32) as u32).to_be_bytes().to_vec()),
+        5 => (0x0012, addr(r, true)),
+        6 => {
+            let n = r.below(40) as usize;
+            (0x0013, r.bytes(n))
+        }
+        7 => (0x0016, addr(r, true)),
+        8 => (0x0017, vec![*r.pick(&[1u8, 2]), 0, 0, 0]),
+        9 => (0x0018, vec![*r.pick(&[0x80u8, 0x00])]),
+        10 => (0x0019, vec![*r.pick(&[17u8, 6]), 0, 0, 0]),
+        11 => (0x001A, vec![]),
+        12 => (0x0022, r.bytes(8)),
+        13 => (0x0024, (r.below(1 << 32) as u32).to_be_bytes().to_vec()),
+        14 => (0x0025, vec![]),
+        15 => {
+            let n = r.below(24) as usize;
+            (0x0026, vec![0u8; n])
+        }
+        16 => (0x0027, (r.below(65536) as u16).to_be_bytes().to_vec()),
+        17 => (0x8000, vec![*r.pick(&[1u8, 2]), 0, 0, 0]),
+        18 => {
+            let mut v = vec![*r.pick(&[1u8, 2]), 0, 4, 40];
+            v.extend_from_slice(b"Address Family not Supported");
+            (0x8001, v)
+        }
+        19 => {
+            let t = r.below(128) as u16;
+            let c = r.below(512) as u16;
+            let mut v = vec![0u8, 0];
+            v.extend_from_slice(&((t << 9) | c).to_be_bytes());
+            v.extend_from_slice(&r.bytes(4));
+            (0x8004, v)
+        }
+        20 => (0x8023, addr(r, false)),
+        21 => (0x8029, r.next_u64().to_be_bytes().to_vec()),
+        22 => (0x802A, r.next_u64().to_be_bytes().to_vec()),
+        23 => (0x802b, addr(r, false)),
+        24 => (0x802c, addr(r, false)),
+        25 => {
+            let n = r.below(30) as usize;
+            (0x8030, r.bytes(n))
+        }
+        26 => (0x0020, addr(r, true)),
+        27 => {
+            // comprehension-optional unknown attribute
+            let n = r.below(12) as usize;
+            (0xC000 + r.below(0x100) as u16, r.bytes(n))
+        }
+        28 => {
+            let n = r.below(20) as usize;
+            (A_SOFTWARE, (0..n).map(|i| b'A' + (i % 26) as u8).collect())
+        }
+        _ => (0x0009, error_code_value(*r.pick(&[300u16, 420, 487, 508, 699]), "reason")),
+    }
+}
+
+/// Every extra kind, as built here, must be accepted by the real decoder (cross-validation of this table).
+pub fn extras_selftest() -> Result<(), String> {
+    let txid = [7u8; 12];
+    for k in 0..N_EXTRA_KINDS {
+        for variant in 0..6u64 {
+            let mut r = crate::prng::Rng::new(k * 100 + variant);
+            let (t, v) = extra_attr(k, &mut r, &txid);
+            let mut b = Builder::new(C_SUCCESS, 1, &txid);
+            b.push_attr(t, &v);
+            let bytes = b.finish();
+            if !crate::libtap::decodes(&bytes) {
+                return Err(format!("extras selftest: kind {} (type {:#06x}, value {}) is not accepted by the library decoder", k, t, crate::crypto::hex(&v)));
+            }
+        }
+    }
+    Ok(())
 }
